@@ -120,6 +120,16 @@ def classifier_case(seed):
     x = torch.rand(6, 3)
     if not torch.equal(a.classify(x), b.classify(x)):
         return {"what": "C12/classifier_predictions", "input": dict(seed=seed), "expected": a.classify(x).tolist(), "actual": b.classify(x).tolist()}
+    # a target in an arbitrary prior state: trained on other data AND already used for inference (logits, proportional or
+    # not) before the checkpoint is loaded into it
+    d = MaxRateClassifier((3,), 4)
+    for _ in range(2):
+        d(torch.rand(5, 3) * 3.0, torch.randint(0, 4, (5,)), logits=None)
+    d.regress(x, True), d.regress(x, False), d.classify(x)
+    d.load_state_dict(roundtrip(a.state_dict()))
+    for prop in (True, False):
+        if not torch.equal(a.regress(x, prop), d.regress(x, prop)):
+            return {"what": "C12/classifier_inference_after_load_into_a_used_target", "input": dict(seed=seed, proportional=prop), "expected": a.regress(x, prop).tolist(), "actual": d.regress(x, prop).tolist()}
     return None
 
 
